@@ -21,6 +21,7 @@ echo "== check against the change"
 cd /repo && git diff --quiet || { echo repo dirty; exit 2; }
 git apply $out/patch.diff || { echo "patch does not apply to /repo"; exit 2; }
 trap 'cd /repo && git checkout -- . && git clean -fdq' EXIT
-cd /verif && /verif/bin/gosym check $id --tier quick > /tmp/seedintake-$name.log 2>&1; rc=$?
+cp /verif/evidence/$id.json /tmp/evidence-backup-$id.json 2>/dev/null; cd /verif && /verif/bin/gosym check $id --tier quick > /tmp/seedintake-$name.log 2>&1; rc=$?
+cp /tmp/evidence-backup-$id.json /verif/evidence/$id.json 2>/dev/null
 grep -E "^(VIOLATION|KNOWN-FINDING|INCONCLUSIVE|ENCODING-MISMATCH|OK|  label)" /tmp/seedintake-$name.log | cut -c1-260 | head -8
 echo "exit=$rc"
